@@ -29,6 +29,11 @@ pub struct SchedCase {
     pub spurious: u32,
     /// the consumer drops the body after this many polls (None: polls until the end)
     pub drop_after: Option<u32>,
+    /// probe mode: the producer also yields while it HOLDS the lock, so that the consumer can be
+    /// scheduled inside a producer critical section. Code that waits for the lock (the unchanged
+    /// code) just blocks there and nothing new happens; code that does not wait (try_lock, or no
+    /// lock at all) shows what it does when it loses that race.
+    pub probe_held: bool,
     pub class: String,
 }
 
@@ -42,6 +47,8 @@ enum Who {
 enum PStatus {
     Ready(usize),
     PostUnlock(usize),
+    /// (probe mode) inside a critical section of operation k, holding the lock
+    Holding(usize),
     Finished,
 }
 #[derive(Clone, Debug, PartialEq)]
@@ -49,6 +56,8 @@ enum CStatus {
     Ready,
     /// inside a poll (or the drop), about to take the lock again after having released it
     MidPoll,
+    /// waiting for the lock the producer holds
+    Blocked,
     Parked(u64),
     Done,
 }
@@ -156,6 +165,7 @@ pub fn run_one(case: &SchedCase, prefix: &[u8]) -> RunResult {
 
     // the hook: P yields right after releasing the lock (between its critical section and its wake)
     let s2 = sched.clone();
+    let probe_held = case.probe_held;
     http_serve::verif_hooks::set_callback(Some(Arc::new(move |e| {
         let role = ROLE.with(|r| r.get());
         if role == 1 {
@@ -163,6 +173,10 @@ pub fn run_one(case: &SchedCase, prefix: &[u8]) -> RunResult {
                 http_serve::verif_hooks::Event::AfterLock => {
                     LOCKS.with(|l| l.set(l.get() + 1));
                     s2.st.lock().unwrap().p_locks_held += 1;
+                    if probe_held {
+                        let k = CUR_OP.with(|c| c.get());
+                        s2.yield_back(Who::P, |st| st.p = PStatus::Holding(k));
+                    }
                 }
                 http_serve::verif_hooks::Event::AfterUnlock => {
                     let k = CUR_OP.with(|c| c.get());
@@ -185,6 +199,10 @@ pub fn run_one(case: &SchedCase, prefix: &[u8]) -> RunResult {
                             st.c = CStatus::MidPoll;
                             st.trace.push(Val::L(vec![Val::N(5), Val::N(wid)]));
                         });
+                    }
+                    // a lock() while the producer holds the lock waits for it (try_lock does not: BeforeTryLock)
+                    while s2.st.lock().unwrap().p_locks_held > 0 && !s2.st.lock().unwrap().abandon {
+                        s2.yield_back(Who::C, |st| st.c = CStatus::Blocked);
                     }
                 }
                 http_serve::verif_hooks::Event::AfterLock => C_LOCKS.with(|l| l.set(l.get() + 1)),
@@ -336,11 +354,12 @@ pub fn run_one(case: &SchedCase, prefix: &[u8]) -> RunResult {
                 Some(_) => true,
                 None => false,
             },
-            PStatus::PostUnlock(_) => true,
+            PStatus::PostUnlock(_) | PStatus::Holding(_) => true,
             PStatus::Finished => false,
         };
         let c_en = match &g.c {
             CStatus::Ready | CStatus::MidPoll => true,
+            CStatus::Blocked => g.p_locks_held == 0,
             CStatus::Parked(w) => g.woken.contains(w) || g.spurious_left > 0,
             CStatus::Done => false,
         };
@@ -434,6 +453,7 @@ pub fn case_line(id: &str, case: &SchedCase, r: &RunResult) -> String {
         Val::boolean(case.fresh_waker),
         Val::N(case.spurious as u64),
         Val::opt(case.drop_after.map(|d| Val::N(d as u64))),
+        Val::boolean(case.probe_held),
     ]);
     let obs = Val::L(vec![Val::boolean(r.stuck), Val::boolean(r.timeout), Val::boolean(r.wake_while_locked)]);
     format!("sched {} {}", id, Val::L(vec![input, obs]).to_string())
@@ -484,6 +504,7 @@ pub fn case_of_input(v: &Val) -> Option<(SchedCase, Vec<u8>)> {
             fresh_waker: l[4].as_n()? != 0,
             spurious: l[5].as_n()? as u32,
             drop_after: l[6].as_opt()?.and_then(|d| d.as_n()).map(|d| d as u32),
+            probe_held: l.get(7).and_then(|v| v.as_n()).map(|n| n != 0).unwrap_or(false),
             class: "replay".into(),
         },
         choices,
